@@ -240,90 +240,11 @@ func c17UpdRun(s c17UpdScn) (c17VerObs, []Mon, string) {
 	cls := "err=" + obs.Err
 
 	// direct monitor with the real library
-	ndig := 0
-	var cons []*semver.Constraints
-	bad := false
-	for _, pc := range s.Parents {
-		if _, herr := conregv1.NewHash(pc); herr == nil {
-			ndig++
-			continue
-		}
-		con, cerr := semver.NewConstraint(pc)
-		if cerr != nil {
-			bad = true
-			continue
-		}
-		cons = append(cons, con)
-	}
+	ndig, bad, cons := c17ParentCons(s.Parents)
 	if err == nil {
-		cur, curErr := semver.NewVersion(s.Installed)
-		switch {
-		case ndig > 0:
-			cls = "digest"
-			if ndig != len(s.Parents) {
-				mons = append(mons, Mon{Sig: "C17:update-mixed-digest-accepted", Why: "digest and version constraints mixed but a result was returned"})
-			}
-			for _, pc := range s.Parents {
-				if h, _ := conregv1.NewHash(pc); h.String() != ver {
-					mons = append(mons, Mon{Sig: "C17:update-not-pinned-digest", Why: "parent pins " + h.String() + " but selected " + ver})
-				}
-			}
-		case bad:
-			mons = append(mons, Mon{Sig: "C17:update-invalid-constraint-accepted", Why: "a parent constraint does not parse but a result was returned"})
-		case curErr != nil:
-			mons = append(mons, Mon{Sig: "C17:update-unparsed-installed", Why: "installed " + s.Installed + " is not a version but a result was returned"})
-		default:
-			valid := func(v *semver.Version) bool {
-				for _, con := range cons {
-					if !con.Check(v) {
-						return false
-					}
-				}
-				return true
-			}
-			var minUp, maxDown *semver.Version
-			for _, t := range s.Tags {
-				v, verr := semver.NewVersion(t)
-				if verr != nil || !valid(v) {
-					continue
-				}
-				if v.Compare(cur) >= 0 {
-					if minUp == nil || v.LessThan(minUp) {
-						minUp = v
-					}
-				} else if maxDown == nil || v.GreaterThan(maxDown) {
-					maxDown = v
-				}
-			}
-			v, verr := semver.NewVersion(ver)
-			in := false
-			for _, t := range s.Tags {
-				in = in || t == ver
-			}
-			switch {
-			case !in:
-				mons = append(mons, Mon{Sig: "C17:update-not-a-tag", Why: "selected " + ver + " is not among the tags"})
-			case verr != nil:
-				mons = append(mons, Mon{Sig: "C17:update-not-semver", Why: "selected " + ver + " is not a semantic version"})
-			case !valid(v):
-				mons = append(mons, Mon{Sig: "C17:update-violates-parent-constraint", Why: fmt.Sprintf("selected %s violates one of %v", ver, s.Parents)})
-			case minUp != nil:
-				cls = "upgrade"
-				if v.Compare(cur) == 0 {
-					cls = "stay"
-				}
-				if v.Compare(minUp) != 0 {
-					mons = append(mons, Mon{Sig: "C17:update-not-lowest-not-older", Why: fmt.Sprintf("installed %s: selected %s but lowest valid not-older version is %s", s.Installed, ver, minUp.Original())})
-				}
-			default:
-				cls = "downgrade"
-				if !s.Down {
-					mons = append(mons, Mon{Sig: "C17:update-downgraded-without-option", Why: fmt.Sprintf("installed %s: selected older %s although downgrades are disabled", s.Installed, ver)})
-				} else if maxDown == nil || v.Compare(maxDown) != 0 {
-					mons = append(mons, Mon{Sig: "C17:update-not-highest-older", Why: fmt.Sprintf("installed %s: selected %s is not the highest valid older version", s.Installed, ver)})
-				}
-			}
-		}
+		var m []Mon
+		m, cls = c17UpdMonitor(s.Parents, s.Installed, s.Down, s.Tags, ver, cls)
+		mons = append(mons, m...)
 	} else if obs.Err == "noValidVersion" && !bad && ndig == 0 {
 		if cur, curErr := semver.NewVersion(s.Installed); curErr == nil {
 			for _, t := range s.Tags {
@@ -343,6 +264,104 @@ func c17UpdRun(s c17UpdScn) (c17VerObs, []Mon, string) {
 		}
 	}
 	return obs, mons, fmt.Sprintf("parents=%d/down=%v/%s", len(s.Parents), s.Down, cls)
+}
+
+// c17ParentCons sorts parent constraints into digests / unparsable / parsed version constraints.
+func c17ParentCons(parents []string) (ndig int, bad bool, cons []*semver.Constraints) {
+	for _, pc := range parents {
+		if _, herr := conregv1.NewHash(pc); herr == nil {
+			ndig++
+			continue
+		}
+		con, cerr := semver.NewConstraint(pc)
+		if cerr != nil {
+			bad = true
+			continue
+		}
+		cons = append(cons, con)
+	}
+	return ndig, bad, cons
+}
+
+// c17UpdMonitor judges a version `ver` selected for an installed dependency (at `installed`)
+// against ALL its parents' constraints with the real library: the pinned digest, or a tag that
+// is a semantic version admitted by every parent, the lowest not-older one, else (downgrades
+// only) the highest older one. Used on the result of findDependencyVersionToUpdate and on
+// every package update written by the lock reconciler.
+func c17UpdMonitor(parents []string, installed string, down bool, tags []string, ver string, cls string) ([]Mon, string) {
+	var mons []Mon
+	ndig, bad, cons := c17ParentCons(parents)
+	{
+		cur, curErr := semver.NewVersion(installed)
+		switch {
+		case ndig > 0:
+			cls = "digest"
+			if ndig != len(parents) {
+				mons = append(mons, Mon{Sig: "C17:update-mixed-digest-accepted", Why: "digest and version constraints mixed but a result was returned"})
+			}
+			for _, pc := range parents {
+				if h, herr := conregv1.NewHash(pc); herr == nil && h.String() != ver {
+					mons = append(mons, Mon{Sig: "C17:update-not-pinned-digest", Why: "parent pins " + h.String() + " but selected " + ver})
+				}
+			}
+		case bad:
+			mons = append(mons, Mon{Sig: "C17:update-invalid-constraint-accepted", Why: "a parent constraint does not parse but a result was returned"})
+		case curErr != nil:
+			mons = append(mons, Mon{Sig: "C17:update-unparsed-installed", Why: "installed " + installed + " is not a version but a result was returned"})
+		default:
+			valid := func(v *semver.Version) bool {
+				for _, con := range cons {
+					if !con.Check(v) {
+						return false
+					}
+				}
+				return true
+			}
+			var minUp, maxDown *semver.Version
+			for _, t := range tags {
+				v, verr := semver.NewVersion(t)
+				if verr != nil || !valid(v) {
+					continue
+				}
+				if v.Compare(cur) >= 0 {
+					if minUp == nil || v.LessThan(minUp) {
+						minUp = v
+					}
+				} else if maxDown == nil || v.GreaterThan(maxDown) {
+					maxDown = v
+				}
+			}
+			v, verr := semver.NewVersion(ver)
+			in := false
+			for _, t := range tags {
+				in = in || t == ver
+			}
+			switch {
+			case !in:
+				mons = append(mons, Mon{Sig: "C17:update-not-a-tag", Why: "selected " + ver + " is not among the tags"})
+			case verr != nil:
+				mons = append(mons, Mon{Sig: "C17:update-not-semver", Why: "selected " + ver + " is not a semantic version"})
+			case !valid(v):
+				mons = append(mons, Mon{Sig: "C17:update-violates-parent-constraint", Why: fmt.Sprintf("selected %s violates one of %v", ver, parents)})
+			case minUp != nil:
+				cls = "upgrade"
+				if v.Compare(cur) == 0 {
+					cls = "stay"
+				}
+				if v.Compare(minUp) != 0 {
+					mons = append(mons, Mon{Sig: "C17:update-not-lowest-not-older", Why: fmt.Sprintf("installed %s: selected %s but lowest valid not-older version is %s", installed, ver, minUp.Original())})
+				}
+			default:
+				cls = "downgrade"
+				if !down {
+					mons = append(mons, Mon{Sig: "C17:update-downgraded-without-option", Why: fmt.Sprintf("installed %s: selected older %s although downgrades are disabled", installed, ver)})
+				} else if maxDown == nil || v.Compare(maxDown) != 0 {
+					mons = append(mons, Mon{Sig: "C17:update-not-highest-older", Why: fmt.Sprintf("installed %s: selected %s is not the highest valid older version", installed, ver)})
+				}
+			}
+		}
+	}
+	return mons, cls
 }
 
 func c17UpdEmit(c *Ctx, s c17UpdScn, prefix string) {
